@@ -84,7 +84,7 @@ func Start(prop, level string) *Run {
 	b := *budget
 	if b == 0 {
 		if r.Tier == "quick" {
-			b = 4 * time.Minute
+			b = 8 * time.Minute // a bound, not a target: every quick check finishes its enumeration well before it on an idle machine
 		} else {
 			b = 40 * time.Minute
 		}
